@@ -312,14 +312,18 @@ func (s *Spec) request(r *simfw.RNG, i int, faultOK bool) Req {
 	case kind < 7: // valid POST
 		goodPost()
 		q.Intent = "valid"
-	case kind < 9: // valid GET item / ping
+	case kind < 9: // GET item / ping: valid, or violating the parameter declared on the path item only
 		q.Method = "GET"
-		if r.Bool() {
-			q.Path = base + fmt.Sprintf("/items/%d", r.Range(1, 500))
-		} else {
-			q.Path = base + "/ping"
-		}
 		q.Intent = "valid"
+		switch r.Intn(4) {
+		case 0, 1:
+			q.Path = base + fmt.Sprintf("/items/%d", r.Range(1, 500))
+		case 2:
+			q.Path = base + "/ping"
+		default:
+			q.Path = base + simfw.Pick(r, []string{"/items/abc", "/items/0", "/items/-3"})
+			q.Intent = "invalid:path"
+		}
 		if r.Chance(1, 3) { // a GET may carry a body nobody validates
 			q.HasBody = true
 			q.Body = "ignored " + rq
